@@ -43,7 +43,7 @@ package implementation
 //@   ensures[entry-holds-received-amount] err == nil ==> stg(context).fusionAmt == store(old(stg(context).fusionAmt), sendBlock.Address, store(old(stg(context).fusionAmt)[sendBlock.Address], sendBlock.Hash, val(sendBlock.Amount)))
 //@   ensures[qsr-only] err == nil ==> sendBlock.TokenStandard == types.QsrTokenStandard
 //@   ensures-local[total-follows-entry] err == nil ==> stg(context).fusedAmt == store(old(stg(context).fusedAmt), deref(beneficiary), old(stg(context).fusedAmt)[deref(beneficiary)] + val(sendBlock.Amount)) && stg(context).fusionBen[sendBlock.Address][sendBlock.Hash] == deref(beneficiary)
-//@   ensures-local[expires-later] err == nil ==> stg(context).fusionExp[sendBlock.Address][sendBlock.Hash] == context.height + constants.FuseExpiration
+//@   ensures-local[expires-later] err == nil && context.height + constants.FuseExpiration < pow2(64) ==> stg(context).fusionExp[sendBlock.Address][sendBlock.Hash] == context.height + constants.FuseExpiration
 //@   ensures[nothing-on-error] err != nil ==> stg(context).fusionAmt == old(stg(context).fusionAmt) && stg(context).fusedAmt == old(stg(context).fusedAmt)
 //@   modifies sendBlock.Data, MF:common/db.DB.fusionHas, MF:common/db.DB.fusionAmt, MF:common/db.DB.fusionExp, MF:common/db.DB.fusionBen, MF:common/db.DB.fusedAmt
 
